@@ -45,6 +45,7 @@ pub enum Scen {
     /// `send_datagram_wait`: each wakeup may find the buffer taken again by the other task
     S5,
     S6,
+    S7,
 }
 
 impl Scen {
@@ -58,10 +59,11 @@ impl Scen {
             Scen::S4r => "S4r",
             Scen::S5 => "S5",
             Scen::S6 => "S6",
+            Scen::S7 => "S7",
         }
     }
     pub fn parse(s: &str) -> Option<Self> {
-        [Scen::S1, Scen::S1w, Scen::S2, Scen::S3, Scen::S4a, Scen::S4r, Scen::S5, Scen::S6].into_iter().find(|x| x.name() == s)
+        [Scen::S1, Scen::S1w, Scen::S2, Scen::S3, Scen::S4a, Scen::S4r, Scen::S5, Scen::S6, Scen::S7].into_iter().find(|x| x.name() == s)
     }
 }
 
@@ -169,11 +171,13 @@ pub struct Spec {
     /// The n-th `UdpSender::poll_send` call of the run (any socket) returns Pending once
     pub send_block: Option<u64>,
     pub devs: Devs,
+    /// receive-offload emulation of the in-memory sockets: (max segments per message, burst delivery)
+    pub gro: Option<(usize, bool)>,
 }
 
 impl Spec {
     pub fn new(scen: Scen) -> Self {
-        Self { scen, drop: DropV::None, cancel: None, send_block: None, devs: vec![] }
+        Self { scen, drop: DropV::None, cancel: None, send_block: None, devs: vec![], gro: None }
     }
     pub fn to_json(&self) -> Value {
         json!({
@@ -183,6 +187,7 @@ impl Spec {
             "cancel": self.cancel.as_ref().map(|c| c.to_json()),
             "send_block": self.send_block,
             "devs": self.devs,
+            "gro": self.gro.map(|(s, b)| json!([s, b])),
         })
     }
     pub fn from_json(v: &Value) -> Option<Self> {
@@ -195,6 +200,7 @@ impl Spec {
                 .as_array()
                 .map(|a| a.iter().map(|x| (x[0].as_u64().unwrap_or(0), x[1].as_u64().unwrap_or(0) as u16)).collect())
                 .unwrap_or_default(),
+            gro: v["gro"].as_array().map(|a| (a[0].as_u64().unwrap_or(1) as usize, a[1].as_bool().unwrap_or(false))),
         })
     }
     pub fn label(&self) -> String {
@@ -204,6 +210,9 @@ impl Spec {
         }
         if let Some(b) = self.send_block {
             s.push_str(&format!("/send-not-writable@{b}"));
+        }
+        if let Some((g, b)) = self.gro {
+            s.push_str(&format!("/gro{g}{}", if b { "+burst" } else { "" }));
         }
         if let Some(c) = &self.cancel {
             s.push_str(&format!("/cancel[{}#{} n={} {:?}]", c.site, c.occ.map_or("*".into(), |x| x.to_string()), c.n, c.mode));
@@ -1339,6 +1348,21 @@ async fn s5_server_conn(o: Arc<Obs>, inc: Incoming, ep: Endpoint) {
     o.stage("done");
 }
 
+/// Give every other ready task (the connection driver in particular) one turn
+async fn yield_once() {
+    let mut yielded = false;
+    std::future::poll_fn(|cx| {
+        if yielded {
+            std::task::Poll::Ready(())
+        } else {
+            yielded = true;
+            cx.waker().wake_by_ref();
+            std::task::Poll::Pending
+        }
+    })
+    .await
+}
+
 /// Sleep on the harness runtime's virtual clock
 async fn vsleep(o: &Arc<Obs>, d: Duration) {
     let rt = o.world.runtime();
@@ -1436,6 +1460,119 @@ async fn s6_server_conn(o: Arc<Obs>, inc: Incoming, ep: Endpoint) {
     o.stage("done");
 }
 
+// S7: bulk data both ways plus datagrams, for receive-batch shapes (C19: the endpoint splits
+// coalesced receive buffers back into the original datagrams by their stride)
+
+const S7_UP: [usize; 9] = [1000, 3000, 700, 5000, 1, 2500, 9000, 333, 12_000];
+const S7_DOWN: usize = 20_000;
+
+fn s7_note_stats(o: &Arc<Obs>, who: &str, conn: &quinn::Connection) {
+    let st = conn.stats();
+    o.note(&format!("{who}_lost_packets"), st.path.lost_packets as i64);
+    o.note(&format!("{who}_udp_rx_datagrams"), st.udp_rx.datagrams as i64);
+}
+
+async fn s7_client(o: Arc<Obs>, ep: Endpoint, cc: ClientConfig, saddr: SocketAddr) {
+    let connecting = match ep.connect_with(cc, saddr, "localhost") {
+        Ok(c) => c,
+        Err(e) => return o.fail("O1:connect-call", format!("connect_with: {e:?}")),
+    };
+    let conn = match aw!(o, "cli.connect", connecting) {
+        Ok(c) => c,
+        Err(e) => return o.fail("O1:connect", format!("connect failed: {}", cerr(&e))),
+    };
+    // datagrams of unequal sizes with nothing else pending: packets that are not full, so that
+    // segmentation-offload batches end in a short segment and several batches arrive together
+    for (i, len) in [1100usize, 1100, 500, 1100, 1100, 300, 1100, 700, 1100].iter().enumerate() {
+        if let Err(e) = conn.send_datagram(Bytes::from(dgram_payload(100 + i as u16, *len))) {
+            o.fail("O2:send_datagram", format!("datagram {i} of {len} bytes: {e:?}"));
+        }
+    }
+    aw!(o, "cli.sleep", vsleep(&o, Duration::from_millis(50)));
+    let mut s = match op!(o, "cli.open_uni", conn.open_uni()) {
+        Ok(s) => s,
+        Err(e) => return o.fail("O1:open_uni", format!("open_uni: {}", cerr(&e))),
+    };
+    let id = sid(s.id());
+    let total: usize = S7_UP.iter().sum();
+    let data = pattern_vec(id, 0, total);
+    let mut off = 0;
+    for (i, len) in S7_UP.iter().enumerate() {
+        if let Err(e) = op!(o, "cli.write", s.write_all(&data[off..off + len])) {
+            return o.fail("O2:write", format!("write {i}: {e:?}"));
+        }
+        off += len;
+        // small datagrams in between give the batches mixed sizes
+        let _ = conn.send_datagram(Bytes::from(dgram_payload(i as u16, 40 + 97 * i)));
+        // let the driver flush what is there: a short packet, then more in the same instant
+        aw!(o, "cli.yield", yield_once());
+    }
+    if let Err(e) = s.finish() {
+        o.fail("O2:finish", format!("{e:?}"));
+    }
+    match op!(o, "cli.accept_uni", conn.accept_uni()) {
+        Ok(mut r) => {
+            let rid = sid(r.id());
+            match op!(o, "cli.read_to_end", r.read_to_end(1 << 20)) {
+                Ok(d) if d == pattern_vec(rid, 0, S7_DOWN) => {}
+                Ok(d) => o.fail("O2:data", format!("download: {} bytes obtained, {} written, content equal: {}", d.len(), S7_DOWN, d == pattern_vec(rid, 0, d.len()))),
+                Err(e) => o.fail("O2:read_to_end", format!("download: {e:?}")),
+            }
+        }
+        Err(e) => o.fail("O1:accept_uni", format!("accept_uni: {}", cerr(&e))),
+    }
+    let _ = op!(o, "cli.stopped", s.stopped());
+    s7_note_stats(&o, "client", &conn);
+    conn.close(VarInt::from_u32(0), b"done");
+    drop(s);
+    drop(conn);
+    aw!(o, "cli.wait_idle", ep.wait_idle());
+    drop(ep);
+    o.stage("done");
+}
+
+async fn s7_server_conn(o: Arc<Obs>, inc: Incoming, ep: Endpoint) {
+    let conn = match aw!(o, "srv.handshake", inc.into_future()) {
+        Ok(c) => c,
+        Err(e) => {
+            ep.close(VarInt::from_u32(77), b"ep");
+            return o.fail("O1:accept", format!("incoming.await: {}", cerr(&e)));
+        }
+    };
+    match op!(o, "srv.accept_uni", conn.accept_uni()) {
+        Ok(mut r) => {
+            let rid = sid(r.id());
+            let total: usize = S7_UP.iter().sum();
+            match op!(o, "srv.read_to_end", r.read_to_end(1 << 20)) {
+                Ok(d) if d == pattern_vec(rid, 0, total) => {}
+                Ok(d) => o.fail("O2:data", format!("upload: {} bytes obtained, {total} written, content equal: {}", d.len(), d == pattern_vec(rid, 0, d.len()))),
+                Err(e) => o.fail("O2:read_to_end", format!("upload: {e:?}")),
+            }
+        }
+        Err(e) => o.fail("O1:accept_uni", format!("accept_uni: {}", cerr(&e))),
+    }
+    match op!(o, "srv.open_uni", conn.open_uni()) {
+        Ok(mut s) => {
+            let id = sid(s.id());
+            let down = pattern_vec(id, 0, S7_DOWN);
+            if let Err(e) = op!(o, "srv.write", s.write_all(&down)) {
+                o.fail("O2:write", format!("download write: {e:?}"));
+            }
+            let _ = s.finish();
+            let _ = op!(o, "srv.stopped", s.stopped());
+        }
+        Err(e) => o.fail("O1:open_uni", format!("server open_uni: {}", cerr(&e))),
+    }
+    let e = aw!(o, "srv.closed", conn.closed());
+    if cerr(&e) != "app(0,\"done\")" {
+        o.fail("O1:closed", format!("server closed() = {}", cerr(&e)));
+    }
+    s7_note_stats(&o, "server", &conn);
+    drop(conn);
+    ep.close(VarInt::from_u32(0), b"");
+    o.stage("done");
+}
+
 async fn accept_loop(o: Arc<Obs>, ep: Endpoint) {
     let mut n = 0u32;
     loop {
@@ -1457,6 +1594,7 @@ async fn accept_loop(o: Arc<Obs>, ep: Endpoint) {
             Scen::S4a | Scen::S4r => o.world.spawn_app(&name, s4_server_conn(o2, inc, e2)),
             Scen::S5 => o.world.spawn_app(&name, s5_server_conn(o2, inc, e2)),
             Scen::S6 => o.world.spawn_app(&name, s6_server_conn(o2, inc, e2)),
+            Scen::S7 => o.world.spawn_app(&name, s7_server_conn(o2, inc, e2)),
         };
     }
     op!(o, "srv.wait_idle", ep.wait_idle());
@@ -1482,6 +1620,8 @@ pub struct Outcome {
     pub send_calls: u64,
     pub send_blocked: u64,
     pub dump: Option<String>,
+    /// shapes of the receive batches that held more than one datagram
+    pub batch_shapes: Vec<Vec<Vec<usize>>>,
 }
 
 pub fn pair_cfg(scen: Scen) -> PairCfg {
@@ -1513,6 +1653,10 @@ pub const LIMITS: Limits = Limits { max_polls: 20_000, horizon: Duration::from_s
 
 pub fn run_spec(base: Instant, spec: &Spec, keep_trace: bool) -> Outcome {
     let world = World::new(base, Duration::from_millis(10), keep_trace);
+    // (before the endpoints exist: they size their receive buffers from max_receive_segments())
+    if let Some((segs, burst)) = spec.gro {
+        world.set_gro(segs, burst);
+    }
     let obs = Arc::new(Obs {
         world: world.clone(),
         scen: spec.scen,
@@ -1540,6 +1684,7 @@ pub fn run_spec(base: Instant, spec: &Spec, keep_trace: bool) -> Outcome {
             Scen::S4a | Scen::S4r => world.spawn_app("cli.main", s4_client(obs.clone(), cep, cc, saddr)),
             Scen::S5 => world.spawn_app("cli.main", s5_client(obs.clone(), cep, cc, saddr)),
             Scen::S6 => world.spawn_app("cli.main", s6_client(obs.clone(), cep, cc, saddr)),
+            Scen::S7 => world.spawn_app("cli.main", s7_client(obs.clone(), cep, cc, saddr)),
         };
         drop(rt);
         world.block_send_at(spec.send_block);
@@ -1676,6 +1821,17 @@ pub fn run_spec(base: Instant, spec: &Spec, keep_trace: bool) -> Outcome {
     } else {
         None
     };
+    if spec.scen == Scen::S7 && matches!(stop, Stop::Quiescent) {
+        for who in ["client", "server"] {
+            let lost = m.notes.get(&format!("{who}_lost_packets")).copied().unwrap_or(0);
+            if lost > 0 {
+                viol.push((
+                    "O7:datagrams-lost-on-lossless-network".into(),
+                    format!("the {who} declared {lost} packets lost although the in-memory network delivers every datagram in order: what the socket reported was not handed to the protocol datagram by datagram"),
+                ));
+            }
+        }
+    }
     let out = Outcome {
         points,
         trace: world.trace_hash(),
@@ -1691,6 +1847,7 @@ pub fn run_spec(base: Instant, spec: &Spec, keep_trace: bool) -> Outcome {
         send_blocked: world.send_calls().1,
         stop: stop.clone(),
         dump,
+        batch_shapes: world.batch_shapes(),
     };
     world.shutdown(matches!(stop, Stop::Panic(_)));
     out
